@@ -45,7 +45,7 @@ CONSTANTS
  PoolSet <- {poolset}
  MaxIdx = {max_idx}
  MaxInnerIdx = {max_inner_idx}
- BuildD2 = {'FALSE' if init == 'F2' else 'TRUE'}
+ BuildD2 = {'FALSE' if init in ('F2', 'PoolZInit') else 'TRUE'}
  SlotsAr1 = {{}}
  SlotsAr2 = {{}}
  SlotsNa0 = {{}}
@@ -395,6 +395,9 @@ def random_pool_term(rng, depth, idx_syms, leaf_syms, max_idx=4):
                 return inner
             return T.node("g", [rng.choice(atoms), inner])
         ar = rng.choice([1, 2, 2, 3])
+        if rng.random() < 0.2:   # the interpreted head: zero as soon as one argument is zero
+            z = T.node("Z", [rng.choice(atoms[:-3]), rng.choice(atoms[:-3])])
+            return z if rng.random() < 0.3 else T.node("g", [rng.choice(atoms), z])
         return T.node("f", [rng.choice(atoms) for _ in range(ar)])
 
     def pool_term(d):
@@ -403,7 +406,7 @@ def random_pool_term(rng, depth, idx_syms, leaf_syms, max_idx=4):
         ix = []
         for s in syms:
             n = rng.choice([1, 1, 2, 2, 3])
-            vs = [rng.choice(LABELS) for _ in range(n)]
+            vs = [rng.choice(LABELS if rng.random() < 0.7 else ["0", "1"]) for _ in range(n)]
             if n >= 2 and rng.random() < 0.3:
                 vs[1] = vs[0]  # duplicate
             ix.append((s, tuple(vs)))
